@@ -163,6 +163,55 @@ func main() {
 			e.Strs("queryParses", parses, "every parser call of async_searcher.go: function: call")
 			e.Strs("astAssignments", astAssign, "every assignment to ...Params.AST: function: statement")
 		}
+		// resume uses the persisted fraction list: what MustStartAsync does per unfinished request, what doSearch
+		// iterates, and every place that writes a Fractions field
+		{
+			var resume, fracWrites, loops []string
+			if fd := f.Func("", "MustStartAsync"); fd != nil {
+				ast.Inspect(fd.Body, func(n ast.Node) bool {
+					if rs, ok := n.(*ast.RangeStmt); ok && strings.Contains(f.Render(rs.X), "notProcessedIDs") {
+						resume = f.Calls(rs.Body)
+					}
+					return true
+				})
+			}
+			if fd := f.Func("AsyncSearcher", "doSearch"); fd != nil {
+				ast.Inspect(fd.Body, func(n ast.Node) bool {
+					if rs, ok := n.(*ast.RangeStmt); ok {
+						for _, c := range f.Calls(rs.Body) {
+							if c == "as.processFrac" {
+								loops = append(loops, f.Render(rs.X))
+							}
+						}
+					}
+					return true
+				})
+			}
+			for _, d := range f.AST.Decls {
+				fd, ok := d.(*ast.FuncDecl)
+				if !ok || fd.Body == nil {
+					continue
+				}
+				ast.Inspect(fd.Body, func(n ast.Node) bool {
+					switch x := n.(type) {
+					case *ast.AssignStmt:
+						for _, l := range x.Lhs {
+							if strings.HasSuffix(f.Render(l), ".Fractions") {
+								fracWrites = append(fracWrites, fd.Name.Name+": "+f.Render(x))
+							}
+						}
+					case *ast.KeyValueExpr:
+						if f.Render(x.Key) == "Fractions" {
+							fracWrites = append(fracWrites, fd.Name.Name+": Fractions: "+f.Render(x.Value))
+						}
+					}
+					return true
+				})
+			}
+			e.Strs("resumeCalls", resume, "calls MustStartAsync makes for every unfinished request")
+			e.Strs("doSearchFractionLoop", loops, "what the processFrac loop of doSearch ranges over")
+			e.Strs("fractionsWrites", fracWrites, "every write of a Fractions field: function: statement")
+		}
 		// key codec
 		if q, err := r.Load("seq/qpr.go"); err != nil {
 			e.Missing("qpr.go", err)
